@@ -58,7 +58,7 @@ def make_known_builder(prop):
     return builder
 
 
-def replay_batch(entries, timeout=1800):
+def replay_batch(entries, timeout=900):
     """entries: list of {'job':..., 'values':..., 'choices':...}; returns list of results from a fresh
     interpreter running the real code on the real numpy (PATHSYM_MODE=concrete)."""
     if not entries:
